@@ -30,6 +30,9 @@ def value_attr(interp, obj, name):
         f = DICT_METHODS.get(name)
         if f is not None:
             return M(obj, name, f)
+    elif type(obj).__name__ == "OpenDict":
+        from . import opendict
+        return opendict.method(interp, obj, name)
     elif isinstance(obj, PyDeque):
         f = DEQUE_METHODS.get(name)
         if f is not None:
@@ -111,6 +114,9 @@ def value_attr(interp, obj, name):
             return M(obj, name, lambda interp, v: int(v).bit_length())
         if name in ("real", "numerator"):
             return as_int(obj)
+        if name == "__hash__":
+            # hash of an int: modelled as the value (equal ints <=> equal hashes), like builtin hash()
+            return M(obj, name, lambda interp, v: ("hash", as_int(v)))
     elif isinstance(obj, tuple):
         if name == "index":
             return M(obj, name, lambda interp, t, x: [i for i, y in enumerate(t) if interp.truth(interp.eq(x, y))][0])
@@ -213,11 +219,11 @@ MUTATING = {"extend", "append", "clear", "insert", "pop", "copy"}
 
 # ---------------------------------------------------------------- list
 def l_append(interp, l, v):
-    l.items.append(v)
+    l._items.append(v)  # valid for open lists too: the element goes after the unknown prefix
 
 
 def l_extend(interp, l, other):
-    l.items.extend(interp.bm.iterate(interp, other))
+    l._items.extend(interp.bm.iterate(interp, other))
 
 
 def l_pop(interp, l, idx=-1):
